@@ -28,6 +28,7 @@ RULE = ('poll scripts of 2-10 responses (update with 0-4 tracepoints / no-change
 ASSUMPTIONS = ['polls are issued by one thread (as the agent\'s single timer does); the asynchrony is in applying them',
                '"polling continues" is decided as bounded progress: timer thread alive and a further request within '
                '100 intervals; alive but silent is inconclusive']
+RULE += '; updates that carry an empty hash'
 REQUIRE = {'updates_with_an_empty_hash': 8, 'scripts_checked': 250, 'updates_applied': 800, 'gates_engaged': 40, 'inflight_overlaps': 100, 'hash_checks': 800,
            'failed_polls': 70, 'unintelligible_answers': 30, 'timer_sessions': 6, 'restart_sessions': 3,
            'preempt_points': 80, 'preempt_overtakes': 8}
